@@ -14,7 +14,7 @@ RULE = (
     "quotes, stray operators and brackets, gigantic / out-of-range numbers, NaN / Infinity, non-ASCII, control characters, "
     "Python keywords, string prefixes, broken escapes, private attribute names, regex / glob / strptime metacharacters, "
     "duplicated date tokens, empty); the CID is loaded with Cid.read and, when it loads, the base data is validated under "
-    "it; plus the cell's own value decorated in 22 ways (no-break and other non-ASCII white space, control characters, zero-width characters, brackets, stray punctuation, doubled). Data side: every cell of the base data is replaced by every pool value and read with cutplace.rows (raise mode) "
+    "it; plus the cell's own value in other letter cases and decorated in 22 ways (no-break and other non-ASCII white space, control characters, zero-width characters, brackets, stray punctuation, doubled). Data side: every cell of the base data is replaced by every pool value and read with cutplace.rows (raise mode) "
     "and validate. Thorough: all pairs of cells within a row over the 25 most productive values, and containers "
     "(delimited, fixed, ODS, XLSX) truncated and with one byte replaced at every offset. A tenth of the cases also go "
     "through applications.main (must not answer 4). Oracle: only InterfaceError / DataError may escape; the innermost "
@@ -41,6 +41,17 @@ POOL = [
 DECORATIONS = ["\xa0{}", "{}\xa0", "\u2003{}", "{}\u2003", "{}\u3000", "\u1680{}", "{}\t", "{}\n", "\n{}", "\ufeff{}", "{}\ufeff", "{}\x00", "{}\x0c", "\x1f{}", "{}\u200b",
                "({})", "{},", "{}#x", "{}\\", "{} {}", "{}\xa0{}", "{},\xa0{}"]
 PRODUCTIVE = ["'", '"abc', "u'a'", '"\\u"', "(", "[", "*", "%", "-", "1e999", "9" * 40, "0x", "1__0", "...", ",", "NaN", "Infinity", "äöü", "\x00", "\n", "class", "is valid", "DD.DD", "", "5...1"]
+
+
+def variations(value):
+    """The cell's own value decorated, and in other letter cases (legal for most cells: names, marks and the values of
+    choice-like properties are case-insensitive - the unusual spelling of a legal value must not end in an internal error
+    either)."""
+    out = [d.replace("{}", value) for d in DECORATIONS]
+    for other in (value.upper(), value.lower(), value.swapcase(), value.title()):
+        if other != value and other not in out:
+            out.append(other)
+    return out
 
 
 def base_cid_rows(kind):
@@ -315,7 +326,7 @@ def run(ctx):
         # ---- CID cells, one at a time
         for r, row in enumerate(base.rows):
             for c in range(1, {"D": 3, "F": 7, "C": 4}[row[0]]):
-                for value in POOL + [d.replace("{}", row[c]) for d in DECORATIONS]:
+                for value in POOL + variations(row[c]):
                     index += 1
                     if not ctx.mine(index):
                         continue
@@ -327,7 +338,7 @@ def run(ctx):
         # ---- data cells, one at a time
         for r in range(len(BASE_DATA)):
             for c in range(len(BASE_DATA[0])):
-                for value in POOL + [d.replace("{}", BASE_DATA[r][c]) for d in DECORATIONS]:
+                for value in POOL + variations(BASE_DATA[r][c]):
                     index += 1
                     if not ctx.mine(index):
                         continue
